@@ -329,9 +329,12 @@ class CFG:
 
 
 def _cannot_raise(s):
-    """`name = <literal constant>`: binding a constant to a local cannot raise."""
+    """`name = <literal constant>` / `self.attr = <literal constant>`: binding a constant
+    to a local or to an attribute of the receiver cannot raise."""
     return isinstance(s, ast.Assign) and isinstance(s.value, ast.Constant) \
-        and all(isinstance(t, ast.Name) for t in s.targets)
+        and all(isinstance(t, ast.Name) or (isinstance(t, ast.Attribute)
+                                            and isinstance(t.value, ast.Name) and t.value.id == "self")
+                for t in s.targets)
 
 
 class _Loop:
